@@ -215,7 +215,42 @@ func check(prop, tier string) int {
 		jobs = append(jobs, job{en, fr, sel})
 		all = append(all, sel...)
 	}
-	results := vc.SolveAll(all, smtDir, timeout, 14)
+	workers := 14
+	if b, err := os.ReadFile("/proc/loadavg"); err == nil {
+		var l1 float64
+		fmt.Sscanf(string(b), "%f", &l1)
+		if l1 > 24 {
+			workers = 4 // the machine is busy (other checks running side by side): fewer solver races at once
+		}
+	}
+	results := vc.SolveAll(all, smtDir, timeout, workers)
+	// An obligation that ran out of time while everything was being solved at once (and possibly while other checks
+	// were running on the same machine) is tried again on its own, two at a time, with twice the budget, before it
+	// is reported: a timeout under load is not a verdict.
+	{
+		var again []int
+		for i, r := range results {
+			if r.Ob.MustFail || r.Ob.Kind == "aux" {
+				continue
+			}
+			if r.Status == "timeout" || r.Status == "unknown" {
+				again = append(again, i)
+			}
+		}
+		if len(again) > 0 && len(again) <= 12 {
+			var obs []*vc.Obligation
+			for _, i := range again {
+				obs = append(obs, results[i].Ob)
+			}
+			second := vc.SolveAll(obs, smtDir, 2*timeout, 2)
+			for k, i := range again {
+				if k < len(second) && second[k] != nil && second[k].Ob == results[i].Ob {
+					second[k].Seconds += results[i].Seconds
+					results[i] = second[k]
+				}
+			}
+		}
+	}
 	var recs []obRecord
 	nObl, nDis := 0, 0
 	var solverTime float64
